@@ -305,3 +305,134 @@ def late_binding_closures(ctx, rule, classes=None):
                'kept copy sees the last value of the loop variable', key=f"late-binding closure in {fi.qualname}")
     ctx.ob(rule, anchor, anchor.node.lineno, 'no closure kept beyond its loop iteration captures the loop variable late', not bad,
            fact=f"{n} closure(s) in loops that read the loop variable", why='see the reports', key='late binding', nontrivial=False)
+
+
+def refusals_not_rounded_for_display(ctx, rule, qualnames):
+    """Whether a request is refused is decided on the computed value (rounded, if at all, at the internal precision).
+    A test of a raising `if` whose operand was rounded with the number of digits of a *display* unit
+    (`config.precisions[..]`) accepts every excess or deficit below that display resolution: a fill target half a
+    millilitre below the present content, a volume 0.4 uL above the capacity."""
+    model = ctx.model
+    n = 0
+    for q in qualnames:
+        fi = model.func(q)
+        assigns = {}
+        for st in ast.walk(fi.node):
+            if isinstance(st, ast.Assign) and len(st.targets) == 1 and isinstance(st.targets[0], ast.Name):
+                assigns.setdefault(st.targets[0].id, []).append(st.value)
+
+        def display_digits(d, depth=0):
+            if depth > 4:
+                return False
+            txt = ast.unparse(d)
+            if 'precisions' in txt:
+                return True
+            if isinstance(d, ast.Name):
+                return any(display_digits(v, depth + 1) for v in assigns.get(d.id, []))
+            return False
+
+        def rounds_in(e, depth=0):
+            out = []
+            for x in ast.walk(e):
+                if isinstance(x, ast.Call) and isinstance(x.func, ast.Name) and x.func.id == 'round' and len(x.args) == 2:
+                    out.append(x)
+                elif isinstance(x, ast.Name) and depth < 3:
+                    for v in assigns.get(x.id, []):
+                        if isinstance(v, ast.Call) and isinstance(v.func, ast.Name) and v.func.id == 'round':
+                            out.extend(rounds_in(v, depth + 1))
+            return out
+        for st in ast.walk(fi.node):
+            if not (isinstance(st, ast.If) and any(isinstance(b, ast.Raise) for b in st.body)):
+                continue
+            rs = rounds_in(st.test)
+            if not rs:
+                continue
+            n += 1
+            bad = [r for r in rs if display_digits(r.args[1])]
+            ctx.ob(rule, fi, st.lineno, f"{q}: the refusal `{ast.unparse(st.test)[:60]}` is not decided on a value rounded for display",
+                   not bad, fact=(f"rounded with `{ast.unparse(bad[0].args[1])[:50]}`" if bad else 'rounded at the internal precision'),
+                   why='excesses / deficits smaller than the display resolution of the unit pass the test: an infeasible request '
+                       'is carried out', key=f"refusal rounded at display precision in {q.split('.')[-1]}")
+    ctx.count('rounded_refusal_tests', n)
+
+
+REORDER = {'sort', 'reverse'}
+RESIZE = {'append', 'extend', 'insert', 'pop', 'remove', 'clear'}
+
+
+def selection_not_changed_in_place(ctx, rule):
+    """The list of wells a slicer was made for is part of its meaning: pairing of wells in a transfer goes by position
+    in that list.  Outside the constructors nothing sorts, reverses or resizes `<slicer>.slices` in place - neither
+    directly nor through a local name bound to it (`wells = self.slices; wells.sort()`)."""
+    model = ctx.model
+    n = 0
+    bad = []
+    for fi in model.funcs.values():
+        if fi.mod.rel not in ('pyplate/pyplate.py', 'pyplate/slicer.py') or fi.parent is not None:
+            continue
+        if fi.name == '__init__' and fi.cls is not None and fi.cls.name in ('Slicer', 'PlateSlicer'):
+            continue
+        aliases = set()
+        for st in ast.walk(fi.node):
+            if isinstance(st, ast.Assign) and isinstance(st.value, ast.Attribute) and st.value.attr == 'slices':
+                for t in st.targets:
+                    if isinstance(t, ast.Name):
+                        aliases.add(t.id)
+        for c in ast.walk(fi.node):
+            if not (isinstance(c, ast.Call) and isinstance(c.func, ast.Attribute) and c.func.attr in REORDER | RESIZE):
+                continue
+            recv = c.func.value
+            hit = (isinstance(recv, ast.Attribute) and recv.attr == 'slices') or (isinstance(recv, ast.Name) and recv.id in aliases)
+            if hit:
+                n += 1
+                bad.append((fi, c.lineno, ast.unparse(c)[:60]))
+    anchor = model.func('Slicer.get')
+    for fi, line, txt in bad:
+        ctx.ob(rule, fi, line, f"{fi.qualname}: the stored selection is not reordered or resized in place", False, fact=txt,
+               why='the order of the listed wells decides which source well is paired with which destination well: after the '
+                   'call the same slicer addresses them in another order', key=f"selection changed in place in {fi.qualname}")
+    ctx.ob(rule, anchor, anchor.node.lineno, 'no function outside the slicer constructors changes a stored selection in place',
+           not bad, fact=f"{n} in-place list operation(s) on a selection", why='see the reports', key='selection in place', nontrivial=False)
+
+
+def recorded_operands_not_mutated(ctx, rule, qualnames):
+    """What a declaring method records in the step is the operand as the caller passed it.  Sorting, extending or
+    otherwise changing a list parameter in place (a list of solutes) changes the caller's object AND breaks the
+    position-wise pairing with the other per-solute lists that are recorded unchanged."""
+    model = ctx.model
+    n = 0
+    for q in qualnames:
+        fi = model.func(q)
+        params = set(fi.all_param_names()) - {'self'}
+        hits = []
+        # plain aliases of a parameter (`substances = solute`) name the same object
+        named = set(params)
+        for c in ast.walk(fi.node):
+            if isinstance(c, ast.Assign) and isinstance(c.value, ast.Name) and c.value.id in params:
+                named |= {t.id for t in c.targets if isinstance(t, ast.Name)}
+        for c in ast.walk(fi.node):
+            if isinstance(c, ast.AugAssign) and isinstance(c.target, ast.Name) and c.target.id in named and \
+                    isinstance(c.op, (ast.Add, ast.BitOr)) and isinstance(c.value, (ast.List, ast.ListComp, ast.Set, ast.Dict)):
+                hits.append((c.lineno, ast.unparse(c)[:60]))
+            if isinstance(c, ast.Call) and isinstance(c.func, ast.Attribute) and c.func.attr in REORDER | RESIZE | {'update', 'setdefault', 'add', 'discard'} \
+                    and isinstance(c.func.value, ast.Name) and c.func.value.id in named:
+                hits.append((c.lineno, ast.unparse(c)[:60]))
+            if isinstance(c, (ast.Assign, ast.AugAssign)):
+                tg = c.targets if isinstance(c, ast.Assign) else [c.target]
+                for t in tg:
+                    if isinstance(t, ast.Subscript) and isinstance(t.value, ast.Name) and t.value.id in named:
+                        hits.append((c.lineno, ast.unparse(c)[:60]))
+                    # re-binding the parameter to a reordered / de-duplicated copy of itself has the same effect on what
+                    # is recorded
+                    v = c.value
+                    if isinstance(t, ast.Name) and t.id in params and isinstance(v, ast.Call) and isinstance(v.func, ast.Name) and \
+                            v.func.id in ('sorted', 'reversed', 'set', 'frozenset') and v.args and \
+                            any(isinstance(x, ast.Name) and x.id == t.id for x in ast.walk(v.args[0])):
+                        hits.append((c.lineno, ast.unparse(c)[:60]))
+        n += 1
+        ctx.ob(rule, fi, hits[0][0] if hits else fi.node.lineno, f"{q}: parameters are recorded as passed, not changed in place",
+               not hits, fact='; '.join(h[1] for h in hits[:2]) or 'no in-place change of a parameter',
+               why='the recorded list is the caller\'s list in another order / with other members: values given per position '
+                   '(one concentration per solute) are applied to the wrong members when the recipe is baked',
+               key=f"parameter changed in place in {q.split('.')[-1]}")
+    ctx.count('declaring_methods_params_checked', n)
